@@ -125,3 +125,14 @@ pub struct UdtOrderedDefaults {
     pub b: i64,
     pub c: Option<i32>,
 }
+
+// a required field that FOLLOWS an `allow_missing` one (the missing-field check must still cover it)
+#[derive(SerializeValue, DeserializeValue)]
+pub struct UdtAllowMissingFirst {
+    #[scylla(allow_missing)]
+    pub a: i32,
+    pub b: String,
+    #[scylla(allow_missing)]
+    pub c: Option<i64>,
+    pub d: i64,
+}
